@@ -650,7 +650,10 @@ impl<R: BufRead> Read for Dearmor<R> {
                     self.current_part = Part::Done(b);
                     return Ok(read);
                 }
-                Part::Temp => panic!("invalid state"),
+                Part::Temp => {
+                    // a previous read failed and left the state as `Temp`, keep failing
+                    return Err(io::Error::other("invalid state, a previous read failed"));
+                }
             }
         }
     }
